@@ -165,8 +165,11 @@ structure St where
   waitFrom : Co → Nat              -- time at which the current wait began (kernel tail started)
 
 def msToNs (ms : Nat) : Nat := ms * 1000000
-/-- `AtomicDuration::store`: `d.as_millis()`, truncating; 0 encodes "no time-out" -/
-def durToMs (ns : Nat) : Nat := ns / 1000000
+/-- `AtomicDuration::store(Some(d))` (src/sync/atomic_dur.rs `to_millis`, since the F2 fix): rounded UP to whole milliseconds and
+    at least 1 (0 encodes "no time-out"); the saturation at `usize::MAX` ms is not modelled -/
+def durToMs (ns : Nat) : Nat := max 1 ((ns + 999999) / 1000000)
+/-- the conversion before the F2 fix (`d.as_millis()`, truncating): kept to state what the defect was -/
+def durToMsTrunc (ns : Nat) : Nat := ns / 1000000
 
 /-- the operation on `s` ends with outcome `o` -/
 def finish (st : St) (c : Co) (s : Sock) (o : Out) : St :=
